@@ -115,4 +115,12 @@ PROPS["C15"] = {
     "assumptions": ["int is 64 bits wide (the platform of this sandbox)"],
 }
 
+PROPS["C16"] = {
+    "parts": [{"family": "bind", "admits": "BindCorr.admits_bind", "model_obs": "model_bobs"}],
+    "level_text": "Theorems for ALL marshal / unmarshal functions (encoding/json is a parameter), all values and destinations: C16_no_panic (no partial reflect operation is reached outside its domain: IsNil only after Kind = Ptr), C16_errors (nil result value, missing key, untyped nil / non-pointer / nil-pointer destination: an error of that class, nothing written), C16_identity (destination of the value's own dynamic type: the value itself, no JSON), C16_json (otherwise exactly marshal then unmarshal into the destination, errors included), C16_store_result_agree (every non-nil value). spec_C16 is proved of the model and applied to the implementation: Result.Bind and SharedStore.Bind on the full product of 32 values x 27 destinations against a reference encoding/json round trip on a clone (class of the outcome, wrapped error text, deep equality of the pointee with the reference / the value / its old contents, source unchanged).",
+    "level_note": _T + " Destinations aliasing the source value are not generated (stated assumption).",
+    "explanation": "decision structure of Bind for all JSON functions; product of values and destinations against a reference round trip",
+    "assumptions": ["NaN / Inf payloads are left out of the deep-equality comparison in the thorough tier"],
+}
+
 NOT_APPLICABLE = {}
